@@ -353,3 +353,6 @@ def run(cx, rep):
                 rep.ob("C03.5", "%s.%s" % (cname, mname), kinds_a == kinds_b or not (a and b),
                        "%s.%s: the `input` key-order branch tests declared keys with %s, the `sorted` branch with %s: a key such as `toString` is kept in one mode and dropped in the other" % (
                            cname, mname, sorted(a), sorted(b)), mod.loc(n), sample={"input_branch": sorted(a), "sorted_branch": sorted(b)})
+    # ---------------------------------------------------------------- C03.8
+    rep.rule("C03.8", "parseAfterValidation() reads every constructor argument it read on the reviewed tree")
+    ts_common.field_matrix_rule(cx, rep, "C03.8", ['parseAfterValidation'])
